@@ -242,3 +242,76 @@ def run_case(idx, rng, tier, res):
         d = [dd for m in g.modules for dd in m.decls if clauses(dd)]
         res.sample = {'genTexts': gt, 'identity_filter': identity,
                       'texts': [(dd.kind, cl, t[:80]) for dd in d[:4] for cl, t, _j, _g, _x in clauses(dd)]}
+
+
+def extra(tier, seed, emit):
+    """the command-line path: mibdump json with every combination of --generate-mib-texts and
+    --keep-texts-layout; texts emitted regardless of genTexts (UNITS, revision descriptions) must be
+    exact when the layout is kept, gated texts must be absent without --generate-mib-texts"""
+    import json
+    import os
+    import shutil
+    import subprocess
+    import tempfile
+    from vlib import env, orch
+    res = harness.Result(-1)
+    res.evals = 0
+    base = tempfile.mkdtemp(prefix='verif-c15cli-', dir=env.scratch_root())
+    try:
+        src = os.path.join(base, 'src')
+        os.makedirs(src)
+        for b in orch.BASE:
+            with open(os.path.join(src, b), 'w') as f:
+                f.write(pipeline.fixtures()[b])
+        units = 'milli  seconds\tper   tick'
+        descr = 'first line\n   second   line\twith tab'
+        revd = 'revision  text\n  on two lines'
+        mibtext = ('CLI-MIB DEFINITIONS ::= BEGIN\nIMPORTS MODULE-IDENTITY, OBJECT-TYPE, enterprises, Integer32 FROM SNMPv2-SMI;\n'
+                   'cliId MODULE-IDENTITY LAST-UPDATED "200001010000Z" ORGANIZATION "o  o" CONTACT-INFO "c" DESCRIPTION "%s"\n'
+                   ' REVISION "200001010000Z" DESCRIPTION "%s" ::= { enterprises 4711 }\n'
+                   'cliObj OBJECT-TYPE SYNTAX Integer32 UNITS "%s" MAX-ACCESS read-only STATUS current DESCRIPTION "%s" ::= { cliId 1 }\nEND\n'
+                   % (descr, revd, units, descr))
+        with open(os.path.join(src, 'CLI-MIB'), 'w') as f:
+            f.write(mibtext)
+        for gt in (False, True):
+            for keep in (False, True):
+                dst = os.path.join(base, 'dst_%d%d' % (gt, keep))
+                args = ['--mib-source=' + src, '--destination-directory=' + dst, '--destination-format=json',
+                        '--mib-borrower=' + base] + (['--generate-mib-texts'] if gt else []) + \
+                    (['--keep-texts-layout'] if keep else []) + ['CLI-MIB']
+                e = env.child_env()
+                e['PYTHONPATH'] = env.REPO
+                e['HOME'] = base
+                p = subprocess.run([env.PYTHON, os.path.join(env.REPO, 'scripts', 'mibdump.py')] + args, env=e,
+                                   stdout=subprocess.PIPE, stderr=subprocess.PIPE, timeout=300, cwd=base)
+                res.evals += 1
+                res.count('cli_text_runs')
+                feat = dict(genTexts=gt, identity=keep, clause='cli')
+                try:
+                    with open(os.path.join(dst, 'CLI-MIB.json')) as f:
+                        doc = json.load(f)
+                except Exception as exc:
+                    res.violation('cli_no_output', 'mibdump %r: %r %s' % (args[3:], exc, p.stderr.decode('utf-8', 'replace')[-300:]), **feat)
+                    continue
+                want = (lambda t: t) if keep else wsn
+                obj, ident = doc.get('cliObj', {}), doc.get('cliId', {})
+                if obj.get('units') != want(units):
+                    res.violation('cli_text_altered', 'mibdump %s: UNITS is %r, expected %r' % (args[4:-1], obj.get('units'), want(units)), **feat)
+                revs = ident.get('revisions') or [{}]
+                if revs[0].get('description') != want(revd):
+                    res.violation('cli_text_altered', 'mibdump %s: revision description is %r, expected %r' % (
+                        args[4:-1], revs[0].get('description'), want(revd)), **feat)
+                for e_, key in ((obj, 'description'), (ident, 'description'), (ident, 'organization')):
+                    if gt:
+                        src_t = descr if key == 'description' else 'o  o'
+                        if e_.get(key) != want(src_t):
+                            res.violation('cli_text_altered', 'mibdump %s: %s is %r, expected %r' % (
+                                args[4:-1], key, e_.get(key), want(src_t)), **feat)
+                    elif e_.get(key) is not None:
+                        res.violation('cli_text_without_request', 'mibdump %s: %s present without --generate-mib-texts' % (
+                            args[4:-1], key), **feat)
+    finally:
+        shutil.rmtree(base, ignore_errors=True)
+    res.sig = 'cli'
+    res.nontrivial = True
+    emit(res)
